@@ -53,7 +53,7 @@ Inductive opx :=
   | SliceI (i : Z) (a : opx) | SliceS (lo hi : option Z) (step : nat) (a : opx)
   | Invert (a : opx)
   | WithProb (p : prob) (a : opx) | Choice2 (a : opx) (p : prob) (b : opx) (q : prob) (limit : option nat)
-  | IfLen (thr : nat) (t f : option opx)          (* Conditional(lambda xs: len(xs) > thr, t, f) *)
+  | IfLen (thr : nat) (t f : opx)                 (* Conditional(lambda xs: len(xs) > thr, t, f); a missing branch is Ident *)
   | Each (a : opx)                                (* ElementWise(a) *)
   | Flatten (maxl : option nat)
   | Until (maxa : nat) (a : opx)                  (* UntilChange(a, max_attempts) *)
@@ -66,6 +66,11 @@ Section Sel.
   Definition nths {A} (l : list A) (idx : list nat) : option (list A) := opt_list (map (nth_error l) idx).
 
   (* Proportional._partition *)
+  Fixpoint skip_zero (cand : list nat) (alloc : list Z) (m fu q : nat) : nat :=
+    match fu with
+    | O => q
+    | S fu' => if (nth (nth q cand O) alloc 0 =? 0)%Z then skip_zero cand alloc m fu' ((q + 1) mod m) else q
+    end.
   Fixpoint adjust (fuel : nat) (cand : list nat) (alloc : list Z) (extra : Z) (next : nat) : res (list Z) :=
     match fuel with
     | O => Err EDraw
@@ -76,13 +81,10 @@ Section Sel.
         let delta := if (0 <? extra)%Z then 1%Z else (-1)%Z in
         let nx0 := next mod m in
         (* skip the slots that are already 0 when taking away *)
-        let nx := if (extra <? 0)%Z
-                  then (fix skip (fu : nat) (q : nat) : nat :=
-                          match fu with
-                          | O => q
-                          | S fu' => if (nth (nth q cand O) alloc 0 =? 0)%Z then skip fu' ((q + 1) mod m) else q end) (S m) nx0
-                  else nx0 in
+        let nx := if (extra <? 0)%Z then skip_zero cand alloc m (S m) nx0 else nx0 in
         let idx := nth nx cand O in
+        (* the inner loop of the code stops at a slot that is not 0; slots are never negative *)
+        if (extra <? 0)%Z && (nth idx alloc 0 <=? 0)%Z then Err EDraw else
         adjust f cand (set_nth alloc idx (nth idx alloc 0 + delta)%Z) (extra - delta)%Z (S nx)
     end.
   Definition partition (ws : list Z) (n : nat) : res (list Z) :=
@@ -155,8 +157,12 @@ Section Sel.
     | SRandom n false | SFirst n | SLast n | STop n false | SBottom n false => Nat.min (num_out n len) len
     | STop n true | SBottom n true =>
         (* every individual whose key is among the best n distinct keys *)
-        match top_bottom (match sl with STop _ _ => true | _ => false end) (num_out n len) true pop with
-        | Ok l => length l | Err _ => 0 end
+        let desc := match sl with STop _ _ => true | _ => false end in
+        let le := fun (a b : Z) => if desc then (b <=? a)%Z else (a <=? b)%Z in
+        match keys_of pop with
+        | Ok ks => let best := firstn (num_out n len) (sort_by le (dedupZ ks)) in
+                   length (filter (fun k => existsb (Z.eqb k) best) ks)
+        | Err _ => 0 end
     end.
 End Sel.
 
@@ -194,8 +200,8 @@ Section Eval.
             dor ws <- (match kd with PWSample | PWWeighted => weights_of wf pop | _ => Ok [] end);
             dor o <- pointwise R G kd w ws s ds (fst st);
             Ok (fresh_items (fst o) (snd o, snd st))
-        | RKPoint k => two (fun x y => dor o <- kpoint R G k s x y (fst st); Ok (fresh_items (fst o) (snd o, snd st)))
-        | RSegmented cuts => two (fun x y => dor cs <- segment cuts s x y; Ok (fresh_items cs st))
+        | RKPoint k => two (fun x y => let o := kpoint R G k s x y (fst st) in Ok (fresh_items (fst o) (snd o, snd st)))
+        | RSegmented cuts => two (fun x y => Ok (fresh_items (segment cuts s x y) st))
         | RPerm pk w =>
             two (fun x y => dor o <- permutation R G pk w s x y (fst st);
                             match fst o with
@@ -269,8 +275,6 @@ Section Eval.
     fix go k a := match k with O => Ok a | S k' => match f a with Ok a' => go k' a' | Err e => Err e end end.
 
   Fixpoint eval (x : opx) (pop : list item) (st : est) {struct x} : res (list item * est) :=
-    let opt := fun (o : option opx) (pop0 : list item) (st0 : est) =>
-      match o with Some a => eval a pop0 st0 | None => Ok (pop0, st0) end in
     match x with
     | Prim p => run_prim p pop st
     | Plain a => eval a pop st
@@ -311,7 +315,7 @@ Section Eval.
         if match limit with Some l => (n1 =? 1) && (l =? 1) | None => false end then Ok (pop1, st1) else
         let (z2, r2) := real G (fst st1) in
         if lt_prob z2 q then eval b pop1 (r2, snd st1) else Ok (pop1, (r2, snd st1))
-    | IfLen thr t f => if thr <? length pop then opt t pop st else opt f pop st
+    | IfLen thr t f => if thr <? length pop then eval t pop st else eval f pop st
     | Each a =>
         dor o <- foldi (fun (_ : nat) y (acc : list item * est) =>
                    match y with
@@ -332,3 +336,12 @@ Section Eval.
            end) maxa st
     end.
 End Eval.
+
+(* ---- specification vocabulary ------------------------------------------------------------------------ *)
+(* every DNA of the population (at any nesting depth) is a valid decision of the specification *)
+Fixpoint item_okb (s : dspec) (x : item) {struct x} : bool :=
+  match x with It i => valid s (idna i) | Grp _ l => forallb (item_okb s) l end.
+Definition pop_ok (s : dspec) (pop : list item) : Prop := Forall (fun x => item_okb s x = true) pop.
+(* an operation maps valid populations to valid populations (when it does not raise) *)
+Definition closed {St : Type} (s : dspec) (f : list item -> St -> res (list item * St)) : Prop :=
+  forall pop st pop' st', pop_ok s pop -> f pop st = Ok (pop', st') -> pop_ok s pop'.
